@@ -25,7 +25,10 @@ _DROP_SHADOW_SIZE: t.Final = 2
 
 @t.overload
 def generic_factory(
-    seb: C.SemanticElementBuilder, *, minsize: diagram.Vector2D = ...
+    seb: C.SemanticElementBuilder,
+    *,
+    minsize: diagram.Vector2D = ...,
+    symbol: bool = ...,
 ) -> diagram.Box: ...
 @t.overload
 def generic_factory(
@@ -33,6 +36,7 @@ def generic_factory(
     *,
     boxtype: type[_T] | functools.partial[_T],
     minsize: diagram.Vector2D = ...,
+    symbol: bool = ...,
 ) -> _T: ...
 def generic_factory(
     seb: C.SemanticElementBuilder,
@@ -41,8 +45,13 @@ def generic_factory(
         type[diagram.Box] | type[_T] | functools.partial[_T]
     ) = diagram.Box,
     minsize: diagram.Vector2D = _MIN_SIZE,
+    symbol: bool = False,
 ) -> _T:
-    """Construct a Box from the diagram XML."""
+    """Construct a Box from the diagram XML.
+
+    If ``symbol`` is true, the box is treated as a symbol even if its
+    style does not reference an image via ``workspacePath``.
+    """
     diag_parent = seb.diag_element.getparent()
     assert diag_parent is not None
     if diag_parent is not seb.diagram_tree:
@@ -77,7 +86,7 @@ def generic_factory(
         raise C.SkipObject() from None
 
     box_is_port = seb.diag_element.tag == "ownedBorderedNodes"
-    box_is_symbol = ostyle.get("workspacePath") is not None
+    box_is_symbol = symbol or ostyle.get("workspacePath") is not None
 
     pos = refpos + (int(layout.get("x", 0)), int(layout.get("y", 0)))
     if box_is_port:
@@ -488,9 +497,7 @@ def pseudo_symbol_factory(seb: C.SemanticElementBuilder) -> diagram.Box:
     usual workspacePath attribute that references the used image for
     symbols.
     """
-    style = next(seb.diag_element.iterchildren("ownedStyle"))
-    style.attrib["workspacePath"] = ""
-    box = generic_factory(seb)
+    box = generic_factory(seb, symbol=True)
     box.JSON_TYPE = "box_symbol"
     return box
 
